@@ -45,6 +45,15 @@ THEOREMS = [
     "Rtosc.Ports.clone_names",
     "Rtosc.Ports.merge_no_repeats",
     "Rtosc.Ports.recurs_index",
+    "Rtosc.Ports.recurs_cb_index",
+    "Rtosc.Ports.callback_own_match",
+    "Rtosc.Ports.matcher_between",
+    "Rtosc.Ports.sugar_obj_handed_down",
+    "Rtosc.Ports.sugar_root_msg",
+    "Rtosc.Ports.dispatch_iff",
+    "Rtosc.Ports.dispatch_must_mustnot",
+    "Rtosc.Ports.dispatch_sandwich",
+    "Rtosc.Ports.loc_full_address_exact",
     "Rtosc.Ports.hard_match_prefix_counterexample",
     "Rtosc.Ports.hash_collision_counterexample",
     "Rtosc.Ports.inner_slash_counterexample",
@@ -84,9 +93,12 @@ ASSUMPTIONS = [
     "addresses and type strings are C strings; digit runs of the address below 2^31 (as in C05)",
     "the location buffer holds '/' + address + NUL (dispatch never compares with loc_size; theorem loc_in_bounds)",
     "callbacks of ports with a sub-table behave like rRecurCb (data.obj = child; SNIP; child.dispatch), the others do "
-    "not touch RtData; the element that rRecursCb / rRecurspCb hand down for 'name#N/' is modelled separately "
-    "(Ports/Sugar.lean, theorem recurs_index) and compared with the code on the R lines, the dispatch theorems name the "
-    "object by the path of its port",
+    "not touch RtData; the dispatch model names an object by the path of its table; which array element rRecursCb / "
+    "rRecurspCb hand down for a port 'name#N/' is the model of rBOILS_BEGIN in Ports/Sugar.lean (recursIdx, objIdx: "
+    "evaluated level by level on the message pointer of that level), proved to be the element the address names, in "
+    "range, for every callback of every dispatch (theorem sugar_obj_handed_down) under the hypothesis that the names "
+    "of ports with a sub-table carry no type specification (what rRecur / rRecurp / rRecurs / rRecursp generate: "
+    "'name/', 'name#N/'); pointer members (rRecurpCb, rRecurspCb) are non-NULL",
     "'the runtime object handed down by the parent levels' is, for the root table, the object the caller put into "
     "RtData - once, for all the messages it dispatches with that RtData: every dispatch must leave d.obj as it found it "
     "(every branch of Ports::dispatch ends in `d.obj = obj`; theorems obj_restored, history_obj_handed_down; observed "
@@ -107,8 +119,16 @@ TRUSTED = [
 LEVEL_TEXT = ("Lean theorems for all port trees of any size over literal and #N names (any byte values) and all messages, "
               "whatever follows the message in its buffer: the callbacks "
               "invoked are exactly the ports whose path matches level by level and whose type spec admits the tags (plus "
-              "the default handler of a reached table in which nothing matches), each once, with the object of the parent "
-              "level, the full address in loc, its own port pointer, matches = number of leaf callbacks, loc and d.obj "
+              "the default handler of a reached table in which nothing matches) - stated twice: exactly, with the type "
+              "rule the matcher really follows (dispatch_linear_iff / dispatch_loc_iff), and in the MUST / MAY / MUSTNOT "
+              "form built from C05's two-sided statement only (dispatch_must_mustnot: everything a message must invoke "
+              "is invoked, nothing it must not; dispatch_sandwich: one verdict function inside the sandwich explains "
+              "every log) -, each once, with the object of the parent level - also through the library's recursion "
+              "macros: the array element rRecursCb / rRecurspCb select at every level is the one the address names and "
+              "lies below N (sugar_obj_handed_down; callback_own_match + recurs_cb_index: for every single invocation, on "
+              "the message pointer and port name the callback is handed) -, the full address in loc (loc_full_address_exact: loc ends with "
+              "exactly the part of the address the callback's own name accounts for, loc + message pointer make the full "
+              "path), its own port pointer, matches = number of leaf callbacks, loc and d.obj "
               "restored, hence the same for every dispatch of any history of dispatches on one RtData "
               "(history_obj_handed_down); the "
               "hashed lookup is sound for arbitrary hash tables and complete for every table the guards of "
@@ -117,11 +137,14 @@ LEVEL_TEXT = ("Lean theorems for all port trees of any size over literal and #N 
               "messages every run (also tables built by ClonePorts / MergePorts and a tree built with the library's "
               "recursion macros), and the statement is evaluated directly on the implementation's output by an "
               "independent, order-insensitive oracle")
-LEVEL_NOTE = ("Open: (1) the type rule of the specification is C05's (a type string that extends the LAST listed alternative "
-              "is admitted: MAY region, the oracle allows both verdicts there); (2) obj_handed_down is proved for the "
-              "model's rRecurCb-style callback (object = path of the port); that rRecursCb / rRecurspCb hand down element "
-              "idx is recurs_index (index computation) + the R lines (library macros, compared and checked by the oracle), "
-              "not a theorem about dispatch; rRecurpCb with a NULL pointer is not exercised; (3) which callback object a "
+LEVEL_NOTE = ("Open: (1) inside the MAY region (a type string that extends a listed alternative without being one) the "
+              "statement fixes nothing; there the exact theorems describe the code's own rule (C05 types_exact: only "
+              "extensions of the LAST alternative are admitted) and the oracle allows both verdicts; (2) "
+              "sugar_obj_handed_down is about the model of the recursion callbacks (Ports/Sugar.lean: rBOILS_BEGIN, SNIP) "
+              "composed with the dispatch model exactly as the driver composes them on the R lines (library macros, "
+              "compared and checked by the oracle); it assumes sub-tree port names without type specification and "
+              "non-NULL pointer members: rRecurpCb / rRecurspCb with a NULL pointer are neither modelled nor exercised; "
+              "(3) which callback object a "
               "ClonePorts / MergePorts port carries is checked on the implementation only (clone_names / merge_no_repeats "
               "are about names); (4) loc_in_bounds assumes room for '/' + address + NUL: the code never compares with "
               "loc_size (no finding raised: documented as 'not properly handled yet' in ports.cpp); (5) isLeaf of a log "
